@@ -71,6 +71,8 @@ pub enum ReplyMut {
 	Saddr { key: KeyPick, resign: bool },
 	/// recipient's real key signs over another amount
 	SigOverAmount(AmountAlt),
+	/// as above, and the reply's own `amount` field (normally 0 in a reply) is set to that other amount
+	SigOverAmountAndField(AmountAlt),
 	/// recipient's real key signs over another excess
 	SigOverExcess(ExcessPick),
 	/// recipient's real key signs over another sender address (saddr field untouched)
@@ -155,6 +157,7 @@ fn reply_mut_strategy() -> BoxedStrategy<ReplyMut> {
 		4 => (keypick(), any::<bool>()).prop_map(|(key, matching)| ReplyMut::Raddr { key, matching }),
 		4 => (keypick(), any::<bool>()).prop_map(|(key, resign)| ReplyMut::Saddr { key, resign }),
 		3 => amountalt().prop_map(ReplyMut::SigOverAmount),
+		3 => amountalt().prop_map(ReplyMut::SigOverAmountAndField),
 		3 => excesspick().prop_map(ReplyMut::SigOverExcess),
 		3 => keypick().prop_map(ReplyMut::SigOverSaddr),
 		3 => any::<u16>().prop_map(ReplyMut::FlipRsig),
@@ -401,9 +404,20 @@ fn mutate_reply(sim: &Sim, f: &Facts, reply: &mut Slate, m: &ReplyMut) -> Option
 		reply.payment_proof = None;
 		return Some(());
 	}
+	if let ReplyMut::SigOverAmountAndField(a) = m {
+		let v = alt_amount(a, f.amount, f.fee);
+		if v == f.amount || v == 0 {
+			return None;
+		}
+		reply.amount = v;
+		let p = reply.payment_proof.as_mut()?;
+		p.receiver_signature = Some(sign(&f.recipient, &proof_msg(v, &f.excess, &f.sender.pk)));
+		return Some(());
+	}
 	let p = reply.payment_proof.as_mut()?;
 	match m {
 		ReplyMut::StripProof => {}
+		ReplyMut::SigOverAmountAndField(_) => {}
 		ReplyMut::StripRsig => {
 			p.receiver_signature?;
 			p.receiver_signature = None;
